@@ -367,7 +367,6 @@ func verifRaceReady(w *bufio.Writer, tmp string, id string, mib int) {
 	fmt.Fprintf(w, "SR ready %d 0 0 = began=%d full_at_ready=%d state_at_ready=%d\n", mib, b, fullAtReady, stateAtReady)
 }
 
-
 // vrGated delivers nothing until the gate opens (a connection that stalls right after the request
 // was accepted), then its bytes
 type vrGated struct {
@@ -466,6 +465,76 @@ func verifRaceLate(w *bufio.Writer, tmp string, id string, size int, corrupt boo
 	fmt.Fprintf(w, "SR late %d %d %d = completed_first=%d where=%s bad_content=%d status=%d\n", size, b2i(corrupt), b2i(held), completed, where, bad, status)
 }
 
+// kind hold: a file is held for a predecessor that was delivered p1 days ago and is known from the
+// receive log only (receiver restarted since; the file is fresh, so each look into the log goes one
+// day further back). The held file is re-examined by its own 10 s timer - here: whenever a timer is
+// PENDING it is fired at once (simulated time). The file must come out after at most p1+3 firings;
+// a held file with no pending timer is stuck for good.
+func verifRaceHold(w *bufio.Writer, tmp string, id string, days int) {
+	root := filepath.Join(tmp, "race"+id)
+	os.RemoveAll(root)
+	defer os.RemoveAll(root)
+	e := &vsEnv{root: root, stageDir: filepath.Join(root, "stage"), finalDir: filepath.Join(root, "final"), logDir: filepath.Join(root, "log")}
+	os.MkdirAll(e.stageDir, 0o755)
+	os.MkdirAll(e.finalDir, 0o755)
+	e.newStage()
+	e.st.GetFileStatus("warm/up", time.Now().Add(-time.Hour))
+	put := func(name, prev string, data []byte, when time.Time) {
+		p := &vsPart{name: name, prev: prev, hash: vrMD5(data), size: int64(len(data)), beg: 0, end: int64(len(data)), time: when.Unix()}
+		e.st.Prepare([]sts.Binned{p})
+		file := &sts.Partial{Name: name, Prev: prev, Size: int64(len(data)), Time: marshal.NanoTime{Time: when}, Hash: p.hash, Source: "src",
+			Parts: []*sts.ByteRange{{Beg: 0, End: int64(len(data))}}}
+		e.st.Receive(file, bytes.NewReader(data))
+	}
+	put("ds/a1", "", []byte("first of the stream"), time.Now().Add(-time.Minute))
+	e.settle()
+	vsAgeAll(e, time.Duration(days)*24*time.Hour)
+	e.st.Stop(true)
+	if e.st.cleanTimeout != nil {
+		e.st.cleanTimeout.Stop()
+	}
+	e.newStage()
+	e.st.Recover()
+	e.settle()
+	defer e.st.Stop(true)
+	put("ds/a2", "ds/a1", []byte("second of the stream"), time.Now())
+	e.settle()
+	delivered := func() bool {
+		_, err := os.Stat(filepath.Join(e.finalDir, "ds/a2"))
+		return err == nil
+	}
+	firings, stuck := 0, 0
+	for i := 0; i < days+3 && !delivered(); i++ {
+		// fire what is pending - and only that
+		var timed []*finalFile
+		e.st.waitLock.Lock()
+		for _, fs := range e.st.wait {
+			for _, f := range fs {
+				// (a timer that has fired stays non-nil in the real run too: the field is left alone)
+				if f.wait != nil && f.wait.Stop() {
+					timed = append(timed, f)
+				}
+			}
+		}
+		e.st.waitLock.Unlock()
+		if len(timed) == 0 {
+			stuck = 1
+			break
+		}
+		for _, f := range timed {
+			firings++
+			e.st.finalizeQueue(f)
+		}
+		e.settle()
+	}
+	d := 0
+	if delivered() {
+		d = 1
+	}
+	fmt.Fprintf(w, "SR hold %d 0 0 = delivered=%d firings=%d no_timer_pending=%d status=%d\n", days, d, firings, stuck,
+		e.st.GetFileStatus("ds/a2", time.Now().Add(-time.Hour)))
+}
+
 func TestVerifStageRace(t *testing.T) {
 	wr, done, ok := gen.Out()
 	if !ok {
@@ -487,6 +556,9 @@ func TestVerifStageRace(t *testing.T) {
 	}
 	for i := 0; i < gen.EnvInt("VERIF_RACE_LATE", 6); i++ {
 		verifRaceLate(wr, tmp, fmt.Sprintf("l%d", i), 2000+i*4096, i%3 != 2, i%2 == 1)
+	}
+	for i := 0; i < gen.EnvInt("VERIF_RACE_HOLD", 3); i++ {
+		verifRaceHold(wr, tmp, fmt.Sprintf("h%d", i), []int{6, 3, 9}[i%3])
 	}
 	nstorm := gen.EnvInt("VERIF_RACE_STORM", 40)
 	for i := 0; i < nstorm; i++ {
